@@ -288,3 +288,5 @@ func trace(format string, a ...any) {
 		fmt.Fprintf(os.Stderr, format+"\n", a...)
 	}
 }
+
+func sortStrings(s []string) { sort.Strings(s) }
